@@ -556,11 +556,18 @@ func crossLevelCycles(m *model.Schema) []string {
 		if e == "" {
 			continue
 		}
+		// a cycle that passes twice through one response name, spread next to a
+		// same-named field that spreads it too — through a field the type does
+		// not have (the sub-selections then have no parent type)
+		out = append(out, fmt.Sprintf("{ %s { nosuchfield { ...F } ...F } } fragment F on %s { nosuchfield { nosuchfield { ...F } } }", e, t.Name))
 		for _, f := range t.Fields {
 			if !noArgs(f) {
 				continue
 			}
 			if f.Type.Base() == t.Name {
+				// the same shape on known fields, and under an unknown type condition
+				out = append(out, fmt.Sprintf("{ %s { %s { ...F } ...F } } fragment F on %s { %s { %s { ...F } } }", e, f.Name, t.Name, f.Name, f.Name))
+				out = append(out, fmt.Sprintf("{ %s { %s { ...F } ...F } } fragment F on NoSuchType { %s { %s { ...F } } }", e, f.Name, f.Name, f.Name))
 				out = append(out, fmt.Sprintf("{ %s { ...A } } fragment A on %s { __typename %s { ...A } }", e, t.Name, f.Name))
 				out = append(out, fmt.Sprintf("{ %s { ...A } } fragment A on %s { %s { ...B } } fragment B on %s { %s { ...A __typename } }", e, t.Name, f.Name, t.Name, f.Name))
 				// the cycle passes through the SECOND of two same-key selections
@@ -578,8 +585,8 @@ func crossLevelCycles(m *model.Schema) []string {
 			}
 		}
 	}
-	if len(out) > 10 {
-		out = out[:10]
+	if len(out) > 16 {
+		out = out[:16]
 	}
 	return out
 }
